@@ -195,6 +195,19 @@ def run(ctx):
     # compatible version negotiation (the client starts in v1, both prefer v2): Initial keys change mid-handshake
     for name in ("hs_only",) if quick and "hs_only" in SCRIPTS else [n for n in SCRIPTS if n in ("hs_only", "echo", "pingpong")]:
         sc[name + "|compat"] = {"script": name, "cfg": {"version": V1, "c_supported": [V2, V1], "s_supported": [V2, V1]}}
+    # endings the handshake itself decides: no common version after Version Negotiation, no common ALPN (the
+    # server's alert), a certificate the client does not trust (the client's alert) - "a fatal error" of the
+    # property that needs no misbehaving peer
+    fatal = {}
+    ops = {"c": [W(0, 100)], "s": []}
+    for vname, ver in (("v1", V1), ("v2", V2)):
+        fatal["fatal:vn_no_common_version|" + vname] = {"ops": ops, "cfg": {"vn": True, "version": ver, "c_supported": [ver], "idle": 5.0}}
+        fatal["fatal:no_common_alpn|" + vname] = {"ops": ops, "cfg": {"version": ver, "s_alpn": ["other"], "idle": 5.0}}
+        fatal["fatal:untrusted_certificate|" + vname] = {"ops": ops, "cfg": {"version": ver, "chain": "otherleaf", "idle": 5.0}}
+    for k in fatal:
+        fatal[k]["dev"] = ("drop", "dup", "delay", "late", "hold")
+    netcheck.explore_scenarios(ctx, "c09", fatal, 1, "fatal_handshake_endings_d1",
+                               sig_extra=lambda sig, sid, devs: dict(sig, script_class="fatal"))
     agg = netcheck.explore_scenarios(ctx, "c09", sc, 1, "d1", sig_extra=sig_extra)
     from vlib import cfgpairs
 
